@@ -14,8 +14,9 @@
    joins and widenings in any interleaving) every state reached by the corresponding
    concrete operations is described by the abstract value of its register; in particular
    every value read from a cell is in gamma (at lhs) after the load ([aload_value_sound])
-   and no reached state is bottom ([areach_not_bottom]).  Meet/narrowing and rename are
-   mirrored by the model (ArraySmash.v) but are outside the theorem ([hop_ok]). *)
+   and no reached state is bottom ([areach_not_bottom]).  Meet/narrowing are mirrored by the
+   model (ArraySmash.v) but are outside the theorem ([hop_ok]); rename is covered for one
+   variable at a time (what the generators produce), within its documented precondition. *)
 From Coq Require Import ZArith NArith List Bool Lia.
 From CrabV Require Import Base.ZInf Scalar.Itv Scalar.ItvSound Ir.Syntax Dom.ItvEnv Dom.ItvEnvSound
      Dom.ItvSolver Dom.ItvSolverSound Dom.ItvDomain Dom.ItvDomainSound Dom.History Dom.HistorySound
@@ -289,7 +290,15 @@ Definition cstep (cs : list cset) (o : ahop) : list cset :=
     csetr cs r (fun c' => exists s mu, cget cs r (s, mu) /\ fst c' = s /\
                   same_mem_but b (snd c') mu /\ forall i, snd c' b i = mu a i)
   | AExpand r _ _ => csetr cs r (fun _ => False)        (* CRAB_ERROR in the code *)
-  | ARename r _ _ => csetr cs r (fun _ => False)        (* outside the theorem, see hop_ok *)
+  | ARename r [VS x] [VS y] =>
+    (* one scalar: the value moves, the old name becomes arbitrary *)
+    csetr cs r (fun c' => exists s mu h, cget cs r (s, mu) /\
+                  fst c' = rename_store s [(x, y)] [h] /\ same_mem (snd c') mu)
+  | ARename r [VA a] [VA b] =>
+    csetr cs r (fun c' => exists s mu, cget cs r (s, mu) /\ fst c' = s /\
+                  (forall c i, c <> a -> c <> b -> snd c' c i = mu c i) /\
+                  forall i, snd c' b i = mu a i)
+  | ARename r _ _ => csetr cs r (fun _ => False)        (* lists: outside the theorem, see hop_ok *)
   | AInit r a e _ _ val =>
     (* every cell that is defined after the initialisation holds val (this covers the
        reading "cells lb, lb+sz, .. <= ub" of cfg.hpp as well as the constant array) *)
@@ -339,6 +348,12 @@ Definition hop_ok (rs : list ast) (o : ahop) : Prop :=
     (* the new variable of expand is fresh: nothing is recorded about it *)
     same_layout b a /\ forall k, la_at (a_la (aget rs r)) b <> BConst k
   | AExpand _ _ _ => True
+  | ARename r [VS x] [VS y] =>
+    (* documented precondition of rename: the new name is not bound *)
+    is_prog x /\ is_prog y /\ is_top (e_at (a_base (aget rs r)) y) = true
+  | ARename r [VA a] [VA b] =>
+    same_layout b a /\ (forall k, la_at (a_la (aget rs r)) b <> BConst k) /\
+    is_top (e_at (a_base (aget rs r)) (ghost b)) = true
   | ARename _ _ _ => False
   | AInit _ _ e _ _ val => le_prog e /\ le_prog val
   | ALoad _ lhs _ e idx => is_prog lhs /\ le_prog e /\ le_prog idx
@@ -709,6 +724,91 @@ Proof. unfold eval_le, le_var. cbn [eval_terms le_terms le_cst]. lia. Qed.
 Lemma la_at_bbot_inv l a : la_at l a = BBot -> l = LBot.
 Proof. destruct l as [|m]; auto. simpl. destruct (lget m a); discriminate. Qed.
 
+(* ---- rename of one variable ---- *)
+Lemma e_rename_one_sound e x y s h : genv e s -> is_top (e_at e y) = true ->
+  genv (e_rename e [x] [y]) (rename_store s [(x, y)] [h]).
+Proof.
+  intros G T. apply (e_rename_sound e [x] [y] s [h]); auto.
+  - repeat constructor. simpl. tauto.
+  - intros k [<-|[]]. auto.
+Qed.
+
+Lemma rename_store_one s x y h k :
+  rename_store s [(x, y)] [h] k =
+  if N.eqb x y then s k else if N.eqb k x then h else if N.eqb k y then s x else s k.
+Proof.
+  cbn [rename_store hd tl]. destruct (N.eqb_spec x y); auto.
+Qed.
+
+Lemma s_rename_scalar_sound x y st s mu h : G st (s, mu) -> is_prog x -> is_prog y ->
+  is_top (e_at (a_base st) y) = true ->
+  G (s_rename [VS x] [VS y] st) (rename_store s [(x, y)] [h], mu).
+Proof.
+  intros HG Px Py T. unfold s_rename. cbn [combine rename_scan app].
+  apply (G_base_op st s mu _ _ (fun s0 => rename_store s0 [(x, y)] [h])); auto.
+  - intros s0 G0 A0. split; [apply e_rename_one_sound; auto|].
+    intros k Pk. rewrite !rename_store_one. destruct (N.eqb x y); [apply A0; auto|].
+    destruct (N.eqb k x); auto. destruct (N.eqb k y); apply A0; auto.
+  - intros s0 a. rewrite rename_store_one. destruct (N.eqb x y); auto.
+    destruct (N.eqb_spec (ghost a) x) as [E1|_]; [exfalso; apply (prog_not_ghost x a Px); auto|].
+    destruct (N.eqb_spec (ghost a) y) as [E2|_]; [exfalso; apply (prog_not_ghost y a Py); auto|]. auto.
+Qed.
+
+Lemma s_rename_array_sound a b st s mu mu1 : G st (s, mu) -> same_layout b a ->
+  (forall k, la_at (a_la st) b <> BConst k) -> is_top (e_at (a_base st) (ghost b)) = true ->
+  (forall c i, c <> a -> c <> b -> mu1 c i = mu c i) -> (forall i, mu1 b i = mu a i) ->
+  G (s_rename [VA a] [VA b] st) (s, mu1).
+Proof.
+  intros HG [SZ LO] FR T HM HB. pose proof HG as (L & S & (s' & Gs & A) & C).
+  unfold s_rename. cbn [combine rename_scan].
+  destruct (la_at (a_la st) a) as [|ka|] eqn:La.
+  - apply la_at_bbot_inv in La. congruence.
+  - cbn [rename_scan app].
+    assert (AG : forall w h, agree w s -> agree (rename_store w [(ghost a, ghost b)] [h]) s).
+    { intros w h Aw k Pk. rewrite rename_store_one. destruct (N.eqb (ghost a) (ghost b)); [apply Aw; auto|].
+      destruct (N.eqb_spec k (ghost a)) as [E1|_]; [exfalso; subst; apply (ghost_not_prog a Pk)|].
+      destruct (N.eqb_spec k (ghost b)) as [E2|_]; [exfalso; subst; apply (ghost_not_prog b Pk)|].
+      apply Aw; auto. }
+    apply G_intro.
+    + apply la_set_not_bot; auto.
+    + intros c k H. rewrite la_at_set in H by auto. destruct (N.eqb_spec b c); [|auto].
+      inversion H; subst. rewrite SZ. apply (S a); auto.
+    + exists (rename_store s' [(ghost a, ghost b)] [0]). split; [apply e_rename_one_sound; auto|].
+      apply AG; auto.
+    + intros c k i v Lc O M. rewrite la_at_set in Lc by auto. destruct (N.eqb_spec b c) as [E|NE].
+      * (* the new array: its cells are those of a *)
+        subst c. rewrite HB in M.
+        exists (rename_store (upd s' (ghost a) v) [(ghost a, ghost b)] [v]). split.
+        -- apply e_rename_one_sound; auto. eapply G_cell_store; eauto.
+        -- rewrite rename_store_one. destruct (N.eqb_spec (ghost a) (ghost b)) as [E1|NE1].
+           ++ rewrite <- E1. apply upd_same.
+           ++ destruct (N.eqb_spec (ghost b) (ghost a)) as [E2|_]; [congruence|].
+              rewrite N.eqb_refl. apply upd_same.
+      * destruct (N.eq_dec c a) as [->|NA].
+        -- (* the old name: arbitrary contents, its ghost has been renamed away *)
+           exists (rename_store s' [(ghost a, ghost b)] [v]). split; [apply e_rename_one_sound; auto|].
+           rewrite rename_store_one.
+           destruct (N.eqb_spec (ghost a) (ghost b)) as [E|_]; [apply ghost_inj in E; congruence|].
+           rewrite N.eqb_refl. auto.
+        -- rewrite HM in M by auto.
+           exists (rename_store (upd s' (ghost c) v) [(ghost a, ghost b)] [0]). split.
+           ++ apply e_rename_one_sound; auto. eapply G_cell_store; eauto.
+           ++ rewrite rename_store_one. destruct (N.eqb (ghost a) (ghost b)); [apply upd_same|].
+              destruct (N.eqb_spec (ghost c) (ghost a)) as [E1|_]; [apply ghost_inj in E1; congruence|].
+              destruct (N.eqb_spec (ghost c) (ghost b)) as [E2|_]; [apply ghost_inj in E2; congruence|].
+              apply upd_same.
+  - (* unknown size: the code does nothing *)
+    cbn [rename_scan].
+    assert (ER : e_rename (a_base st) [] [] = a_base st).
+    { unfold e_rename. destruct (a_base st) as [|m]; auto. simpl. destruct (forallb _ _); auto. }
+    rewrite ER. apply G_intro; auto.
+    + exists s'. auto.
+    + intros c k i v Lc O M. destruct (N.eq_dec c b) as [->|NB]; [exfalso; eapply FR; eauto|].
+      destruct (N.eq_dec c a) as [->|NA]; [congruence|].
+      rewrite HM in M by auto. exists (upd s' (ghost c) v). split; [|apply upd_same].
+      eapply G_cell_store; eauto.
+Qed.
+
 Lemma s_array_init_sound a e val st st' s mu mu1 : G st (s, mu) -> le_prog e -> le_prog val ->
   eval_le e s = esz a -> s_array_init a e val st = Some st' ->
   same_mem_but a mu1 mu -> (forall i v, mu1 a i = Some v -> v = eval_le val s) ->
@@ -950,7 +1050,13 @@ Proof.
     + apply rel_set; auto. intros c F. destruct F.
     + apply rel_set; auto. intros [s1 mu1] (s & mu & C & E1 & E2 & E3). cbn [fst snd] in *. subst s1.
       destruct OK as [LY FR]. apply (s_expand_array_sound a b (aget rs r) s mu mu1); auto.
-  - tauto.
+  - (* rename of one variable *)
+    destruct from as [|[x|a] [|? ?]]; try tauto; destruct to as [|[y|b] [|? ?]]; try tauto;
+      cbn [cstep hop_ok] in *; inversion H; subst; clear H.
+    + apply rel_set; auto. intros c (s & mu & h & C & E1 & E2). destruct OK as (P1 & P2 & P3).
+      apply G_pair. rewrite E1. apply (G_mem_ext _ _ mu); auto. apply s_rename_scalar_sound; auto.
+    + apply rel_set; auto. intros [s1 mu1] (s & mu & C & E1 & E2 & E3). cbn [fst snd] in *. subst s1.
+      destruct OK as (P1 & P2 & P3). apply (s_rename_array_sound a b (aget rs r) s mu mu1); auto.
   - (* array_init *)
     destruct (s_array_init a esz0 val (aget rs r)) as [st'|] eqn:E; inversion H; subst.
     apply rel_set; auto. intros [s1 mu1] (s & mu & C & SZ & E1 & E2 & E3). cbn [fst snd] in *. subst s1.
